@@ -77,7 +77,7 @@ func r021(c *Ctx, r *R) {
 			case isNilConst(lf.Val):
 				// must be the send arm of a non-blocking select on batchItemCh
 				ok := false
-				for _, g := range guardsOf(lf.Block) {
+				for _, g := range lf.Guards() {
 					x, k, tme, isEq := eqConst(g.Cond)
 					if !isEq || tme != g.Branch {
 						continue
@@ -602,7 +602,7 @@ func r026(c *Ctx, r *R) {
 			if isNilConst(lf.Val) {
 				// nil allowed only after the write succeeded or when the
 				// write reported not-found (Rm is a no-op then)
-				if guardedBy(lf.Block, func(g Guard) bool { return gCallErrNil(g, m.write) }) {
+				if lf.GuardedBy(func(g Guard) bool { return gCallErrNil(g, m.write) }) {
 					continue
 				}
 				hasWriteBefore := false
